@@ -34,6 +34,7 @@ import (
 	httppkg "github.com/fatedier/frp/pkg/util/http"
 	"github.com/fatedier/frp/pkg/util/log"
 	netpkg "github.com/fatedier/frp/pkg/util/net"
+	"github.com/fatedier/frp/pkg/util/verifhook"
 	"github.com/fatedier/frp/pkg/util/version"
 	"github.com/fatedier/frp/pkg/util/wait"
 	"github.com/fatedier/frp/pkg/util/xlog"
@@ -249,6 +250,10 @@ func (svr *Service) keepControllerWorking() {
 func (svr *Service) login() (conn net.Conn, connector Connector, err error) {
 	xl := xlog.FromContextSafe(svr.ctx)
 	connector = svr.connectorCreator(svr.ctx, svr.common)
+	verifhook.At("login.attempt", "svc", verifhook.ID(svr), "server_port", svr.common.ServerPort)
+	defer func() {
+		verifhook.At("login.result", "svc", verifhook.ID(svr), "server_port", svr.common.ServerPort, "ok", err == nil)
+	}()
 	if err = connector.Open(); err != nil {
 		return nil, nil, err
 	}
